@@ -94,6 +94,28 @@ entc! {
 	c07t_entc_u64_2: u64, 2; c07t_entc_u64_6: u64, 6; c07t_entc_u64_7: u64, 7; c07t_entc_u64_8: u64, 8; c07t_entc_u128_5: u128, 5; c07t_entc_u128_9: u128, 9; c07t_entc_u128_13: u128, 13;
 }
 
+/// strings with a multi-byte character: every entry point gives count-of-BYTES + UTF-8 bytes
+#[kani::proof]
+#[kani::unwind(10)]
+pub fn c07q_ent_str_non_ascii() {
+	let x: u8 = kani::any();
+	kani::assume(x >= 0x80 && x <= 0xBF);
+	let a: u8 = kani::any();
+	kani::assume(a < 0x80);
+	let raw = [a, 0xC3, x]; // one ASCII char + one two-byte char (U+00C0..U+00FF)
+	let st = unsafe { core::str::from_utf8_unchecked(&raw) };
+	let s = String::from(st);
+	let mut buf = Buf::<8>::new(); st.encode_to(&mut buf);
+	assert!(buf.n == 4 && buf.d[0] == 12 && buf.d[1] == a && buf.d[2] == 0xC3 && buf.d[3] == x, "str is not count-of-bytes + UTF-8 bytes");
+	assert!(same_slice(&st.encode(), buf.bytes()), "str::encode differs from encode_to for a non-ASCII string");
+	assert!(same_slice(&s.encode(), buf.bytes()), "String::encode differs from encode_to for a non-ASCII string");
+	assert!(st.using_encoded(|b| same_slice(b, buf.bytes())) && s.using_encoded(|b| same_slice(b, buf.bytes())), "using_encoded differs for a non-ASCII string");
+	assert!(st.encoded_size() == 4 && s.encoded_size() == 4);
+	let t = (s.clone(),);
+	assert!(same_slice(&t.encode(), buf.bytes()), "1-tuple of a non-ASCII String: encode() differs");
+	core::mem::forget((s, t));
+}
+
 /// the two helper entry points built on using_encoded: Joiner::and (append) and KeyedVec::to_keyed_vec (prepend a key)
 #[kani::proof]
 #[kani::unwind(10)]
